@@ -41,7 +41,7 @@ __all__ = ['UdpDriver']
 class UdpDriver(CRTPDriver):
 
     def __init__(self):
-        None
+        CRTPDriver.__init__(self)
 
     def connect(self, uri, linkQualityCallback, linkErrorCallback):
         if not re.search('^udp://', uri):
